@@ -252,6 +252,9 @@ func monitorStream(evs []Event) (vs []Violation) {
 			l := strings.TrimSuffix(e.Data, "\n")
 			switch kw := firstToken(l); kw {
 			case "info":
+				if il := parseInfo(l); !(il.hasDepth || il.hasNodes || il.hasPV) {
+					break
+				}
 				if !owed {
 					add("info-outside-search", fmt.Sprintf("info line outside any search window: %q", l), e.Seq)
 				}
